@@ -16,6 +16,7 @@ import (
 // to a case is a violation, too: the most recent case is stored as its replay.
 func TestZRaceLog(t *testing.T) {
 	hx.E.Set("race_build", raceEnabled)
+	hx.E.Set("failing_parse_leaks_lexer_goroutine", invalidCap < 1<<30)
 	if !raceEnabled {
 		return
 	}
@@ -35,7 +36,9 @@ func TestZRaceLog(t *testing.T) {
 		c := lastCase
 		lastCaseLock.Unlock()
 		late.Msg = "(reported after the last case had returned)\n" + late.Msg
-		if c != nil && !hx.Tolerated(late) {
+		if caseFailed.Load() {
+			t.Logf("further reports after the failing case (its replay file is kept): %s", late.Sig)
+		} else if c != nil && !hx.Tolerated(late) {
 			hx.WriteReplay(*c, late)
 			t.Fatalf("VIOLATION C13: %s", late)
 		}
